@@ -1,0 +1,10 @@
+//go:build verif
+
+package rpc
+
+import "github.com/projecteru2/core/types"
+
+// VerifToSendLargeFileChunks exposes toSendLargeFileChunks to the verification harness.
+func VerifToSendLargeFileChunks(file types.LinuxFile, ids []string) []*types.SendLargeFileOptions {
+	return toSendLargeFileChunks(file, ids)
+}
